@@ -95,6 +95,9 @@ class CFG:
         self.elabel: dict[tuple[int, int], str] = {}
         self.by_ast: dict[int, list[int]] = {}
         self.owner: dict[int, list[int]] = {}  # id(expr/ast) -> node ids that evaluate it
+        self.loop_head: dict[int, list[int]] = {}  # id(loop stmt) -> head node ids (one per finally copy)
+        self.loop_after: dict[int, list[int]] = {}
+        self.loop_body_in: dict[int, list[int]] = {}
         self.entry = self._new("entry")
         self.exit = self._new("exit")
         self.raise_exit = self._new("raise")
@@ -166,6 +169,9 @@ class CFG:
             after = self._new("join", None, st, ctx.copy)
             lctx = _Ctx(exc=ctx.exc, ret=ctx.ret, brk=lambda: after, cont=lambda: t, copy=ctx.copy)
             b_in = self._new("join", None, st, ctx.copy)
+            self.loop_head.setdefault(id(st), []).append(t)
+            self.loop_after.setdefault(id(st), []).append(after)
+            self.loop_body_in.setdefault(id(st), []).append(b_in)
             self._edge(t, b_in, "true")
             outs = self._seq(st.body, {b_in}, lctx)
             for o in outs:
@@ -192,6 +198,9 @@ class CFG:
             after = self._new("join", None, st, ctx.copy)
             lctx = _Ctx(exc=ctx.exc, ret=ctx.ret, brk=lambda: after, cont=lambda: h, copy=ctx.copy)
             b_in = self._new("join", None, st, ctx.copy)
+            self.loop_head.setdefault(id(st), []).append(h)
+            self.loop_after.setdefault(id(st), []).append(after)
+            self.loop_body_in.setdefault(id(st), []).append(b_in)
             self._edge(h, b_in, "true")
             outs = self._seq(st.body, {b_in}, lctx)
             for o in outs:
